@@ -102,7 +102,7 @@ class EllipsePixelRegion(PixelRegion):
         dy = pixcoord.y - self.center.y
         in_ell = ((2 * (cos_angle * dx + sin_angle * dy) / self.width) ** 2
                   + (2 * (sin_angle * dx - cos_angle * dy)
-                     / self.height) ** 2 <= 1.)
+                     / self.height) ** 2 < 1.)
         if self.meta.get('include', True):
             return in_ell
         else:
